@@ -378,6 +378,168 @@ ctl('a2-receiver-called-twice', 'C08', 'A2', 'websocket/metrics.go',
 		if err != nil {
 			wsReceiveError.""", 'handlerWithMetrics).Receiver')
 
+
+EN = 'models/entity.go'
+SE = 'models/session.go'
+# ---- component store contracts
+ctl('s-add-overwrites', 'C12', 'S-Add', EN,
+    """	if _, ok := s.entityComponents[ec.EntityComponentTypeId][ec.EntityId]; ok {
+		return errors.New("entity component is already added").
+			WithType(hwebsocket.ErrEntityComponentTypeAlreadyAdded).
+			WithTag("id", ec.EntityComponentTypeId).
+			WithTag("entity_id", ec.EntityId)
+	}
+	s.entityComponents[ec.EntityComponentTypeId][ec.EntityId] = ec
+""",
+    """	s.entityComponents[ec.EntityComponentTypeId][ec.EntityId] = ec
+""", 'Add', 'duplicate check dropped')
+ctl('s-add-store-then-refuse', 'C12', 'S-Add', EN,
+    """	if _, ok := s.entityComponents[ec.EntityComponentTypeId][ec.EntityId]; ok {
+		return errors.New("entity component is already added").""",
+    """	if _, ok := s.entityComponents[ec.EntityComponentTypeId][ec.EntityId]; ok {
+		s.entityComponents[ec.EntityComponentTypeId][ec.EntityId] = ec
+		return errors.New("entity component is already added").""", 'Add:refusal-pure')
+ctl('s-update-upserts', 'C12', 'S-Update', EN,
+    """	_, ok = entityComponents[ec.EntityId]
+	if !ok {
+		return errors.New("entity component has not been added").
+			WithTag("id", ec.EntityComponentTypeId).
+			WithTag("entity_id", ec.EntityId)
+	}
+
+	s.entityComponents[ec.EntityComponentTypeId][ec.EntityId] = ec""",
+    """	_ = entityComponents
+	s.entityComponents[ec.EntityComponentTypeId][ec.EntityId] = ec""", 'Update', 'update of a component that was never added inserts it')
+ctl('s-delete-reports-after', 'C12', 'S-Delete', EN,
+    """	_, ok = entityComponents[entityID]
+	delete(entityComponents, entityID)
+	return ok""",
+    """	delete(entityComponents, entityID)
+	_, ok = entityComponents[entityID]
+	return !ok""", 'Delete')
+ctl('s-cascade-first-type-only', 'C12', 'S-DeleteByEntity', EN,
+    """	for _, ecs := range s.entityComponents {
+		delete(ecs, entityID)
+	}""",
+    """	for _, ecs := range s.entityComponents {
+		delete(ecs, entityID)
+		break
+	}""", 'DeleteByEntityID')
+ctl('s-list-skips', 'C12', 'S-List', EN,
+    """	for _, ec := range s.entityComponents[entityComponentTypeID] {
+		list = append(list, ec)
+	}""",
+    """	for _, ec := range s.entityComponents[entityComponentTypeID] {
+		if len(ec.Data) == 0 {
+			continue
+		}
+		list = append(list, ec)
+	}""", 'List')
+ctl('d4-addtype-not-idempotent', 'C12', 'D4', EN,
+    """	if eaID, ok := s.idIndex[name]; ok {
+		return eaID
+	}
+
+	id := s.ids.New()""",
+    """	id := s.ids.New()""", 'AddType')
+ctl('d4-addtype-one-index', 'C10', 'D4', EN,
+    """	s.nameIndex[id] = name
+	s.idIndex[name] = id
+	return id""",
+    """	s.idIndex[name] = id
+	return id""", 'AddType')
+# ---- subscriptions
+ctl('s-subscribe-unregistered', 'C13', 'S-Subscribe', EN,
+    """	if _, ok := s.nameIndex[entityComponentTypeID]; !ok {
+		return errors.New("entity component type is not added").
+			WithType(hwebsocket.ErrEntityComponentTypeNotAdded).
+			WithTag("id", entityComponentTypeID)
+	}
+
+	if _, ok := s.subscriptions[entityComponentTypeID]; !ok {""",
+    """	if _, ok := s.subscriptions[entityComponentTypeID]; !ok {""", 'Subscribe')
+ctl('s-unsubscribe-noop', 'C13', 'S-Unsubscribe', EN,
+    """	delete(s.subscriptions[entityComponentTypeID], participantID)
+}""",
+    """	delete(s.subscriptions[participantID], entityComponentTypeID)
+}""", 'Unsubscribe')
+ctl('s-unsubscribe-all-partial', 'C13', 'S-UnsubscribeAll', EN,
+    """	for _, subscriptions := range s.subscriptions {
+		delete(subscriptions, participantID)
+	}""",
+    """	for typeID, subscriptions := range s.subscriptions {
+		if typeID == 1 {
+			continue
+		}
+		delete(subscriptions, participantID)
+	}""", 'UnsubscribeByParticipant')
+ctl('s-notify-always', 'C13', 'S-Notify', EN,
+    """	subscriptions := s.subscriptions[entityComponentTypeID]
+	if len(subscriptions) == 0 {
+		return
+	}
+""",
+    """	subscriptions := s.subscriptions[entityComponentTypeID]
+	_ = subscriptions
+""", 'Notify')
+# ---- ids
+ctl('d3-recycled-stays-in-pool', 'C10', 'D3', 'models/id.go',
+    """	for id := range g.reusableIDs {
+		delete(g.reusableIDs, id)
+		return id
+	}""",
+    """	for id := range g.reusableIDs {
+		return id
+	}""", 'New')
+ctl('d3-entity-id-reused', 'C10', 'D3', SE,
+    """	delete(s.entities, e.ID)
+}""",
+    """	delete(s.entities, e.ID)
+	s.entityIDs.Reuse(e.ID)
+}""", 'Reuse')
+ctl('d3-participant-id-reused', 'C05', 'D3', SE,
+    """	delete(s.participants, p.ID)
+}""",
+    """	delete(s.participants, p.ID)
+	s.participantIDs.Reuse(p.ID)
+}""", 'Reuse')
+# ---- broadcast
+ctl('c3-sender-not-skipped', 'C02', 'C3', SE,
+    """	for _, p := range s.participants {
+		if p == sender {
+			continue
+		}
+		p.Responder.SendMsg(msg)
+	}""",
+    """	for _, p := range s.participants {
+		p.Responder.SendMsg(msg)
+	}""", 'Broadcast')
+ctl('c3-broadcastto-no-dedupe', 'C14', 'C3', SE,
+    """		if _, ok := isParticipantHandled[p.ID]; ok {
+			continue
+		}
+		isParticipantHandled[p.ID] = struct{}{}
+""", """		_ = isParticipantHandled
+""", 'BroadcastTo')
+ctl('c3-broadcastto-sender-served', 'C14', 'C3', SE,
+    """	for _, p := range participants {
+		if p == sender {
+			continue
+		}
+
+		if _, ok""",
+    """	for _, p := range participants {
+		if _, ok""", 'BroadcastTo')
+ctl('j6-recipient-resolution', 'C14', 'J6', SE,
+    """		p, ok := s.participants[id]
+		if ok {
+			participants = append(participants, p)
+		}""",
+    """		p, ok := s.participants[id]
+		if !ok {
+			participants = append(participants, p)
+		}""", 'GetParticipantsByIDs')
+
 os.makedirs(OUT, exist_ok=True)
 bad = 0
 names = set()
